@@ -43,7 +43,10 @@ PROPS_PART = {
                            'over {0,1,2,3,4,3f,40,c0,ff} + exemplars of every layout (13 name shapes incl. 63/64-octet labels and 255/256-octet names, character strings of 0/1/255 octets '
                            'and overlong, option lists, 12 TSIG shapes, 65535-octet TXT and OPT) each truncated at every length and extended by one octet; read: 1212 RDATA regions '
                            '(24 name shapes incl. pointers backwards/into a label/forwards/to itself/cut off, expansions to 255 and 256 octets) in a message with two earlier names x 3 continuations '
-                           'x 6-10 cursor/RDLENGTH choices (exact, +-1, +-2, 0, 2, 6, shifted cursor), plus 5 messages x 21 cursors up to usize::MAX x 14 RDLENGTHs up to 65535 (5.1M cases)',
+                           'x 6-10 cursor/RDLENGTH choices (exact, +-1, +-2, 0, 2, 6, shifted cursor), plus 5 messages x 21 cursors up to usize::MAX x 14 RDLENGTHs up to 65535 (5.1M cases); '
+                           'long messages: a name at offset T in {255,256,257,511,512,513,768,1024,15872} and a chained name ("sub" + pointer to T) at T+256, every layout with names '
+                           '(NS.., MX, SOA, MINFO, CH A, SRV) x 12 name shapes (pointer / label+pointer to T, T+256, T+8, plain, pointers one octet off, to itself) x 2 continuations x '
+                           'RDLENGTH exact/+1/-1/-2 (2.2M cases)',
                      what='public Rdata::validate vs the RFC field layouts (bounded/src/wire_ref.rs): same verdict; public Rdata::read: no panic for any cursor/RDLENGTH, Err when the RDATA is not '
                           'inside the message, Ok only with RDATA the reference and validate accept, result equal to the reference reader (octets as they are / names decompressed; '
                           'refusing a compressed SRV target tolerated); error kinds not compared; write->read round trip not covered')],
